@@ -173,6 +173,9 @@ def do_edit(handles, h, e):
         setattr(getattr(m, e["s"]) if e.get("s") else m, e["n"], e["v"])
     elif t == "xref":
         setattr(getattr(m, e["s"]) if e.get("s") else m, e["n"], target_of(handles, e))
+    elif t == "noderef":      # a reference bound to a NODE of a cells of the model itself (directed cases, tag "n")
+        sp = getattr(m, e["s"])
+        setattr(sp, e["n"], getattr(sp, e["c"]).node(e["k"]))
     elif t == "delcells":
         delattr(getattr(m, e["s"]), e["n"])
     elif t == "delspace":
@@ -194,6 +197,25 @@ def token(handles, obj):
         if h is obj:
             return i
     return -1
+
+
+def foreign_holdings(handles):
+    """[holder token, reference, owner token]: references of an open model bound to an object / node of ANOTHER model"""
+    out = []
+    for i, h in enumerate(handles):
+        try:
+            if mx.get_models().get(h.name) is not h:
+                continue
+            owners = [(h, "")] + [(sp, sp.name + ".") for sp in h.spaces.values()]
+            for o, pre in owners:
+                for n, v in dict(o._own_refs if hasattr(o, "_own_refs") else o.refs).items():
+                    tgt = getattr(v, "obj", v)
+                    mdl = getattr(tgt, "model", None)
+                    if mdl is not None and mdl is not h and n != "__builtins__":
+                        out.append([i, pre + n, token(handles, mdl)])
+        except Exception as e:
+            out.append([i, "<raised:%s>" % type(e).__name__, -2])
+    return out
 
 
 def observe(handles):
@@ -281,6 +303,8 @@ def run_case(case, idx):
                     if a != b:
                         iso.append({"h": j, "defs": a[0] != b[0], "vals": a[1] != b[1]})
             res["obs"].append({"out": out, "reg": reg, "names": names, "cur": cur, "iso": iso, "eout": eout})
+            if case.get("tag") == "n":
+                res["obs"][-1]["foreign"] = foreign_holdings(handles)
     finally:
         reset()
         for h in handles:
